@@ -458,3 +458,143 @@ def check_c03(tier):
     if keep:
         rep.sample(dict(variants=keep[0][0]['variants'], fasta=keep[0][1]['fasta'][:5]))
     return rep.finish()
+
+
+def label_tokens(entry):
+    out = []
+    for f in entry.split('|'):
+        if f.startswith('SECT-'):
+            out.append('SECT')
+        elif f.startswith('W2F-'):
+            out.append('W2F')
+        elif re.fullmatch(r'ORF\d+', f):
+            out.append('ORF')
+        else:
+            out.append(f)
+    return out
+
+
+def fasta_case(fa):
+    return [dict(seq=list(s), labels=[label_tokens(e) for e in h.split(' ')]) for h, s in fa]
+
+
+def check_c05(tier):
+    from checks import callrun
+    rep = report.Report('C05', tier)
+    rep.cov['rule'] = ("paired runs of one input: each relaxation (miscleavage+1, min-length-1, max-length+3, lower min-mw, SECT on, W2F on, "
+                       "coding-novel-orf on, one more variant record) must keep every peptide and add only attributable ones; "
+                       "restrictive switches (noncanonical-transcripts, backsplicing-only) must give a subset; inputs: the synthetic "
+                       "campaign of C01 and the repository's demo data (fusion, circRNA, alternative splicing, too large for haplotype "
+                       "enumeration); complexity limits off; non-trivial = the relaxed run adds at least one peptide")
+    work = env.scratch('c05_')
+    r = env.rng('c05')
+    items = [it for it in campaign(rep, tier, work) if it['mode'] in ('base', 'nc', 'sec', 'multi', 'startnf', 'nf')]
+    r.shuffle(items)
+    items = items[:40 if tier == 'quick' else 1200]
+    jobs_, meta = [], []
+
+    def add(it, kind, a_args, b_args, a_cfg, added=''):
+        # every run writes to its own file (the runs of one input execute concurrently)
+        n = len(jobs_)
+        a_args = dict(a_args, output_path=os.path.join(os.path.dirname(a_args['output_path']), f'pair{n}_a.fasta'))
+        b_args = dict(b_args, output_path=os.path.join(os.path.dirname(b_args['output_path']), f'pair{n}_b.fasta'))
+        jobs_.append(dict(cmd='callVariant', args=a_args)); jobs_.append(dict(cmd='callVariant', args=b_args))
+        meta.append(dict(it=it, kind=kind, a=a_cfg, added=added, a_args=a_args, b_args=b_args))
+
+    for k, it in enumerate(items):
+        a = dict(it['args']); cfg = it['cfg']; sc = it['case']['cfg']
+        outb = lambda tag: dict(output_path=os.path.join(os.path.dirname(a['output_path']), f'out_{tag}.fasta'))
+        if cfg['rule'] in ('trypsin', 'lysc', 'arg-c'):
+            add(it, 'misc', a, dict(a, miscleavage=str(cfg['misc'] + 1), **outb('misc')), sc)
+        if cfg['min_len'] > 1:
+            add(it, 'minlen', a, dict(a, min_length=cfg['min_len'] - 1, **outb('minlen')), sc)
+        add(it, 'maxlen', a, dict(a, max_length=cfg['max_len'] + 3, **outb('maxlen')), sc)
+        if cfg['min_mw'] != '0.00005':
+            add(it, 'minmw', a, dict(a, min_mw='0.00005', **outb('minmw')), sc)
+        add(it, 'w2f', a, dict(a, w2f_reassignment=True, **outb('w2f')), sc)
+        if it['mode'] == 'sec':
+            add(it, 'sect', a, dict(a, selenocysteine_termination=True, **outb('sect')), sc)
+        add(it, 'novelorf', a, dict(a, coding_novel_orf=True, **outb('novelorf')), sc)
+        # one variant record less
+        gvf = a['input_path'][0]
+        lines = open(gvf).read().splitlines(keepends=True)
+        recs = [j for j, l in enumerate(lines) if not l.startswith('#')]
+        if len(recs) >= 2:
+            drop = r.choice(recs)
+            vid = lines[drop].split('\t')[2]
+            g2 = gvf.replace('.gvf', '_less.gvf')
+            open(g2, 'w').write(''.join(l for j, l in enumerate(lines) if j != drop))
+            add(it, 'variant', dict(a, input_path=[g2], **outb('less')), a, sc, added=vid)
+    # demo data: large inputs
+    demo = dict(callrun.DEMO_REF)
+    dd = os.path.join(work, 'demo'); os.makedirs(dd, exist_ok=True)
+    base = dict(demo, cleavage_rule='trypsin', cleavage_exception=None, miscleavage='1', min_mw='500.00005', min_length=7, max_length=25,
+                max_variants_per_node=[-1], additional_variants_per_misc=[-1])
+    dcfg = cvgen.spec_cfg(dict(rule='trypsin', exc='', misc=1, min_len=7, max_len=25, min_mw='500.00005'))
+    allg = [callrun.G[g] for g in ('snp', 'indel', 'fusion', 'circ', 'redi', 'alts')]
+    A = dict(base, input_path=allg, output_path=os.path.join(dd, 'a.fasta'))
+    fake = dict(mode='demo', cfg=dict(rule='trypsin', exc=''), gtf=None, chroms=None, variants=None)
+    add(fake, 'misc', A, dict(A, miscleavage='2', output_path=os.path.join(dd, 'b1.fasta')), dcfg)
+    add(fake, 'minlen', A, dict(A, min_length=6, output_path=os.path.join(dd, 'b2.fasta')), dcfg)
+    add(fake, 'maxlen', A, dict(A, max_length=30, output_path=os.path.join(dd, 'b3.fasta')), dcfg)
+    add(fake, 'minmw', A, dict(A, min_mw='0.00005', output_path=os.path.join(dd, 'b4.fasta')), dcfg)
+    add(fake, 'sect', A, dict(A, selenocysteine_termination=True, output_path=os.path.join(dd, 'b5.fasta')), dcfg)
+    add(fake, 'w2f', A, dict(A, w2f_reassignment=True, output_path=os.path.join(dd, 'b6.fasta')), dcfg)
+    add(fake, 'novelorf', A, dict(A, coding_novel_orf=True, output_path=os.path.join(dd, 'b7.fasta')), dcfg)
+    add(fake, 'restrict', A, dict(A, noncanonical_transcripts=True, output_path=os.path.join(dd, 'b8.fasta')), dcfg)
+    add(fake, 'restrict', A, dict(A, backsplicing_only=True, output_path=os.path.join(dd, 'b9.fasta')), dcfg)
+    for j, sub in enumerate((['snp', 'indel'], ['snp', 'indel', 'fusion'], ['snp', 'indel', 'fusion', 'circ'],
+                             ['snp', 'indel', 'fusion', 'circ', 'redi'])):
+        # one more GVF file
+        add(fake, 'morefiles', dict(A, input_path=[callrun.G[g] for g in sub], output_path=os.path.join(dd, f'c{j}a.fasta')),
+            dict(A, input_path=[callrun.G[g] for g in sub] + [callrun.G[('fusion', 'circ', 'redi', 'alts')[j]]],
+                 output_path=os.path.join(dd, f'c{j}b.fasta')), dcfg)
+    nj = env.NCPU
+    res = jobs.run_jobs('run_cv_batch.py', [dict(jobs=jobs_[k::nj]) for k in range(nj)], timeout=3400)
+    flat = [None] * len(jobs_)
+    for k, rr in enumerate(res):
+        if not rr.get('ok'):
+            rep.machinery(f"worker failed: {rr.get('error')} {rr.get('stderr', '')[-300:]}"); return rep.finish()
+        for j, x in enumerate(rr['results']):
+            flat[k + j * nj] = x
+    cases, info = [], []
+    for k, m in enumerate(meta):
+        xa, xb = flat[2 * k], flat[2 * k + 1]
+        key = env.canon_hash([m['it'].get('gtf'), m['it'].get('variants'), m['kind'], {kk: str(v) for kk, v in m['b_args'].items()}])
+        if not xa['ok'] or not xb['ok']:
+            rep.case(1, key)
+            rep.violation(f"crash:{key}", f"callVariant raised in a paired run ({m['kind']}): {xa['error'] or xb['error']}",
+                          dict(kind=m['kind'], b_args={kk: str(v) for kk, v in m['b_args'].items()}))
+            continue
+        kind = m['kind']
+        if kind == 'morefiles':
+            # attribution: the extra peptides must name a record of the added file -> checked as subset only
+            kind2 = 'restrict'
+            cases.append(dict(kind='restrict', a=m['a'], b=m['a'], outA=fasta_case(xb['fasta']), outB=fasta_case(xa['fasta']), added=''))
+        else:
+            cases.append(dict(kind=kind, a=m['a'], b=m['a'], outA=fasta_case(xa['fasta']), outB=fasta_case(xb['fasta']), added=m['added']))
+        grew = len({s for _, s in xb['fasta']} - {s for _, s in xa['fasta']}) > 0
+        info.append((key, m, grew, xa, xb))
+    verdicts = tlc_cases('MonotoneTrace', cases, work, 'mono', rep)
+    for (key, m, grew, xa, xb), vs in zip(info, verdicts):
+        rep.traces(1); rep.case(1, key if grew else None)
+        kinds = [re.match(r'"(\w+)"', v).group(1) for v in vs]
+        if 'done' not in kinds:
+            rep.machinery(f"no verdict for paired case {key}")
+        for v, kd in zip(vs, kinds):
+            if kd == 'done':
+                continue
+            peps = [''.join(re.findall(r'"(.)"', x)) for x in re.findall(r'<<(.*?)>>', v)]
+            rule = m['it']['cfg']['rule']; exc = m['it']['cfg'].get('exc', '')
+            what = (f"{m['kind']} relaxation: {kd} peptides {peps[:6]} (mode {m['it']['mode']}, rule {rule})")
+            ro = dict(kind=m['kind'], verdict=kd, peptides=peps, a_args={kk: str(v2) for kk, v2 in m['a_args'].items()},
+                      b_args={kk: str(v2) for kk, v2 in m['b_args'].items()}, gtf=m['it'].get('gtf'), chroms=m['it'].get('chroms'),
+                      variants=m['it'].get('variants'))
+            if rule in LOOKBEHIND or exc:
+                rep.violation(f"context:{rule}:{exc}", what, ro)
+            else:
+                rep.violation(f"mono:{key}:{kd}", what, ro)
+    if info:
+        m = info[0][1]
+        rep.sample(dict(kind=m['kind'], stricter=len(info[0][3]['fasta']), relaxed=len(info[0][4]['fasta'])))
+    return rep.finish()
